@@ -2,9 +2,12 @@
   C16 — options: custom joiner, lazy branches, transpose switch, crate path.
   Statements about the structured code `genStep` / `genLink` / `genFinal` produce, for every context
   (∀ programs, kinds, option values).  "Options are accepted in any order and subset, each at most once" is a
-  property of the parser: K1 enumerates every subset, permutation and duplicate position (Props/C15).
+  property of the parser: the last section states it about the parser model (`options_any_order_subset`,
+  `options_order_irrelevant`, `option_twice_rejected`); K1 / K1-parse enumerate every subset, permutation and duplicate
+  position against the real parser (Props/C15, tools/props.py).
 -/
 import JoinModel.Lemmas.CtxFacts
+import JoinModel.Lemmas.OptionParse
 import JoinModel.Print
 namespace JoinModel.Props.C16
 open JoinModel
@@ -132,5 +135,81 @@ theorem fcp_everywhere (fcp : Toks) :
   constructor
   · simp [useFutures, List.append_assoc]
   · simp [fnSpawnTokio, futureOf, List.append_assoc]
+
+/-! ### The option parser: any order, any subset, each at most once
+
+  `Lemmas/OptionParse.lean` shows that the option loop of `JoinInputDefault::parse` — rounds in which the four keywords
+  are tried in a fixed order — does the same as reading the written options one after the other.  `its` are the written
+  options `keyword(content)`, `rest` is what follows them (it does not start with an option keyword). -/
+
+/-- **Any order and any subset**: options with pairwise different keywords whose arguments parse (a path, a boolean
+    literal) are all accepted, whatever their order and number; each sets its own field, the rest of the input is
+    left for the branches. -/
+theorem options_any_order_subset (o : Oracle) (its : List OptItem) (rest : Toks) (hok : ∀ it ∈ its, ItemOK o it)
+    (hnd : (its.map (·.kw)).Nodup) (hrest : optionKw rest = none) :
+    parseOptions o ((renderOpts its ++ rest).length + 1) ((renderOpts its ++ rest).length + 1) (renderOpts its ++ rest) {} =
+      .ok (its.foldl (applyItem o) {}, rest) := by
+  have hl : its.length < (renderOpts its ++ rest).length + 1 := by
+    simp only [List.length_append, renderOpts_length]; omega
+  rw [parseOptions_seq o rest hrest _ _ its {} hok hl hl,
+    seqSpec_ok o its {} hok hnd (fun it _ => by
+      rcases mem_optionOrder _ (hok it ‹_›).1 with h | h | h | h <;> simp [isSet, h])]
+
+theorem applyItem_comm (o : Oracle) (opts : Opts) (a b : OptItem) (ha : ItemOK o a) (hb : ItemOK o b) (hne : a.kw ≠ b.kw) :
+    applyItem o (applyItem o opts a) b = applyItem o (applyItem o opts b) a := by
+  rcases mem_optionOrder _ ha.1 with h | h | h | h <;> rcases mem_optionOrder _ hb.1 with h' | h' | h' | h'
+  all_goals first
+    | exact absurd (h.trans h'.symm) hne
+    | (simp only [applyItem, h, h']
+       cases o.pathPrefix a.content <;> cases o.pathPrefix b.content <;> cases o.litBool a.content <;>
+         cases o.litBool b.content <;> simp [Bool.or_assoc, Bool.or_comm, Bool.or_left_comm])
+
+/-- **The order does not matter**: two orders of the same options give the same record. -/
+theorem options_order_irrelevant (o : Oracle) (its₁ its₂ : List OptItem) (hp : its₁.Perm its₂) :
+    (∀ it ∈ its₁, ItemOK o it) → (its₁.map (·.kw)).Nodup → ∀ opts : Opts,
+    its₁.foldl (applyItem o) opts = its₂.foldl (applyItem o) opts := by
+  induction hp with
+  | nil => intro _ _ _; rfl
+  | cons x _ ih =>
+    intro hok hnd opts
+    simp only [List.map_cons, List.nodup_cons] at hnd
+    simp only [List.foldl_cons]
+    exact ih (fun y hy => hok y (List.mem_cons_of_mem _ hy)) hnd.2 _
+  | swap x y l =>
+    intro hok hnd opts
+    simp only [List.map_cons, List.nodup_cons, List.mem_cons, not_or] at hnd
+    simp only [List.foldl_cons]
+    rw [applyItem_comm o opts y x (hok y List.mem_cons_self) (hok x (List.mem_cons_of_mem _ List.mem_cons_self)) hnd.1.1]
+  | trans h12 _ ih1 ih2 =>
+    intro hok hnd opts
+    rw [ih1 hok hnd opts]
+    exact ih2 (fun y hy => hok y (h12.mem_iff.mpr hy)) ((h12.map _).nodup_iff.mp hnd) opts
+
+/-- **Each at most once**: a keyword written a second time — anywhere after its first occurrence, whatever stands in
+    between and behind — is rejected with the "specified twice" error for that keyword. -/
+theorem option_twice_rejected (o : Oracle) (pre : List OptItem) (b : OptItem) (post : List OptItem) (rest : Toks)
+    (hok : ∀ it ∈ pre ++ b :: post, ItemOK o it) (hnd : (pre.map (·.kw)).Nodup) (hdup : b.kw ∈ pre.map (·.kw))
+    (hrest : optionKw rest = none) :
+    parseOptions o ((renderOpts (pre ++ b :: post) ++ rest).length + 1) ((renderOpts (pre ++ b :: post) ++ rest).length + 1)
+        (renderOpts (pre ++ b :: post) ++ rest) {} = .error (.optionTwice (shortName b.kw)) := by
+  have hl : (pre ++ b :: post).length < (renderOpts (pre ++ b :: post) ++ rest).length + 1 := by
+    simp only [List.length_append, renderOpts_length]; omega
+  have hpre : ∀ it ∈ pre, ItemOK o it := fun it h => hok it (List.mem_append_left _ h)
+  rw [parseOptions_seq o rest hrest _ _ _ {} hok hl hl,
+    seqSpec_twice o pre b post {} hpre (hok b (by simp)).1 hnd (fun it h => by
+      rcases mem_optionOrder _ (hpre it h).1 with h | h | h | h <;> simp [isSet, h]) (Or.inr hdup)]
+
+/-- non-vacuity: two options in the "wrong" order are accepted and set their fields; the same keyword twice is rejected -/
+example :
+    let o : Oracle := { validExpr := fun _ => false, validType := fun _ => false, isBlock := fun _ => false,
+                        letSplit := fun _ => .notLet, reprintExpr := id, reprintType := id, exprPrefix := fun _ => none,
+                        pathPrefix := fun ts => some ts.length, litBool := fun ts => if ts == [.ident "true"] then some true else none }
+    let lazy : Toks := [.ident "lazy_branches", .group .paren [.ident "true"]]
+    let joiner : Toks := [.ident "custom_joiner", .group .paren [.ident "j"]]
+    ((parseOptions o 9 9 (lazy ++ joiner ++ [.ident "a"]) {}).toOption.map
+        (fun r => (r.1.lazy, r.1.joiner, r.2))) = some (some true, some [.ident "j"], [.ident "a"]) ∧
+    (parseOptions o 9 9 (lazy ++ joiner ++ lazy ++ [.ident "a"]) {}).toOption.isSome = false := by
+  intro o lazy joiner
+  exact ⟨rfl, rfl⟩
 
 end JoinModel.Props.C16
